@@ -348,8 +348,12 @@ def crash_points(payload):
 
 def file_sets(tier, seed):
     rnd = random.Random(f"{seed}:c15")
-    sets = []
-    n = 6 if tier == "quick" else 120
+    # fixed sets first (both tiers): a fault inside an open list / quote / fence followed by a file that uses the
+    # same construct nested, so that state a rule forgot to reset in the failing file shows in the next one
+    LISTY = "# T\n\n- first item\n- second item\n  - nested\n    + deep\n\n1. one\n   1. inner\n"
+    QUOTY = "# T\n\n> quote\n> > inner\n> - list in quote\n\n```text\ncode\n```\n"
+    sets = [([LISTY, LISTY], seed * 1000 + 900), ([POOL[4], POOL[2], LISTY], seed * 1000 + 901), ([QUOTY, LISTY, QUOTY], seed * 1000 + 902)]
+    n = 3 if tier == "quick" else 120
     for i in range(n):
         k = 2 + (i % 2)
         docs = []
